@@ -522,6 +522,125 @@ func sectionRules(P *Program, r *Result, ruleErr, ruleMap string) {
 		}
 	}
 	r.add(ruleErr, shortName(rk), "loop", "the header can only end with success at an info-id boundary", P.pos(rk.Pos()), okLoop, detailLoop)
+	// an info id that is none of the known ones fails the decode: where every equality test of the dispatch has
+	// failed, control reaches an error return, never the next round of the loop
+	if header != nil {
+		isDispatchIf := func(b *ssa.BasicBlock) *ssa.BinOp {
+			iff, ok := b.Instrs[len(b.Instrs)-1].(*ssa.If)
+			if !ok {
+				return nil
+			}
+			bo, ok := iff.Cond.(*ssa.BinOp)
+			if !ok || bo.Op != token.EQL {
+				return nil
+			}
+			if _, isC := bo.Y.(*ssa.Const); !isC {
+				return nil
+			}
+			if isErrorType(bo.X.Type()) || !isInteger(bo.X.Type()) {
+				return nil
+			}
+			// the value compared is the info id (or a conversion of it): it is compared with several constants
+			return bo
+		}
+		var chain []*ssa.BasicBlock
+		byVal := map[ssa.Value][]*ssa.BasicBlock{}
+		for _, b := range rk.Blocks {
+			if bo := isDispatchIf(b); bo != nil {
+				byVal[bo.X] = append(byVal[bo.X], b)
+			}
+		}
+		for _, bs := range byVal {
+			if len(bs) > len(chain) {
+				chain = bs
+			}
+		}
+		okDefault, dDefault := len(chain) >= 3, "no dispatch over the info id found"
+		if okDefault {
+			inChain := map[*ssa.BasicBlock]bool{}
+			for _, b := range chain {
+				inChain[b] = true
+			}
+			// the block reached when the last test fails too
+			var def *ssa.BasicBlock
+			for _, b := range chain {
+				if f := b.Succs[1]; !inChain[f] {
+					// skip empty forwarding blocks
+					for len(f.Instrs) == 1 && len(f.Succs) == 1 && !inChain[f.Succs[0]] && f != header {
+						f = f.Succs[0]
+					}
+					if !inChain[f] {
+						def = f
+					}
+				}
+			}
+			dDefault = ""
+			switch {
+			case def == nil:
+				okDefault, dDefault = false, "the dispatch has no way out for an id that matches no case"
+			case def == header:
+				okDefault, dDefault = false, "an id that matches no case is skipped like padding (the loop goes round)"
+			default:
+				A := newAnalysis(P)
+				fa := A.fa(rk)
+				seenB := map[[2]*ssa.BasicBlock]bool{}
+				var walk func(b, from *ssa.BasicBlock)
+				walk = func(b, from *ssa.BasicBlock) {
+					if seenB[[2]*ssa.BasicBlock{b, from}] || !okDefault {
+						return
+					}
+					seenB[[2]*ssa.BasicBlock{b, from}] = true
+					if b == header {
+						okDefault, dDefault = false, "an id that matches no case is skipped like padding (the loop goes round)"
+						return
+					}
+					if ret, isRet := b.Instrs[len(b.Instrs)-1].(*ssa.Return); isRet {
+						rv := ret.Results[len(ret.Results)-1]
+						okRet := fa.prove(ineqGE(fa.nilExpand(rv), linConst(1)), b, rootCtx)
+						// the error as it is on the edge we came by (a tail shared with other arms)
+						if ph, isPhi := rv.(*ssa.Phi); !okRet && isPhi && ph.Block() == b && from != nil {
+							for i, p := range b.Preds {
+								if p == from && isKnownError(ph.Edges[i]) {
+									okRet = true
+								}
+							}
+						}
+						if !okRet {
+							okDefault, dDefault = false, "an id that matches no case can end in success at "+P.pos(instrPos(ret))
+						}
+						return
+					}
+					// a test of the error shared by the arms of the dispatch: on the way from the default arm the error is
+					// the one just made, so only its non-nil side is taken
+					if iff, isIf := b.Instrs[len(b.Instrs)-1].(*ssa.If); isIf && from != nil {
+						if bo, isBo := iff.Cond.(*ssa.BinOp); isBo && (bo.Op == token.NEQ || bo.Op == token.EQL) && (isNilConst(bo.X) || isNilConst(bo.Y)) {
+							v := bo.X
+							if isNilConst(v) {
+								v = bo.Y
+							}
+							if ph, isPhi := v.(*ssa.Phi); isPhi && ph.Block() == b {
+								for i, p := range b.Preds {
+									if p == from && isKnownError(ph.Edges[i]) {
+										if bo.Op == token.NEQ {
+											walk(b.Succs[0], b)
+										} else {
+											walk(b.Succs[1], b)
+										}
+										return
+									}
+								}
+							}
+						}
+					}
+					for _, s2 := range b.Succs {
+						walk(s2, b)
+					}
+				}
+				walk(def, nil)
+			}
+		}
+		r.add(ruleErr, shortName(rk), "default", "an info id that is none of the known ones makes the decode fail", P.pos(rk.Pos()), okDefault, dDefault)
+	}
 	// ... and only where nothing is left unread: the success return sits on the failing side of the one-byte read of
 	// the next info id, or behind a test that says the position about to be read is at or past the end
 	if header != nil {
